@@ -37,21 +37,44 @@ theorem adv_root (hne : s.rt ≠ .exited) (hB : InvB s) (hF : InvF s)
         (by simp [step, hne, failTS_ended, hk, hst, hW]) (by simp [hst])
     · have hro := (kind_orchestrator_iff r).mp hk
       subst hro
-      -- no ensemble task is alive: a live one would be cancelled (then `hS2`) or stopping (then `hS1`)
-      have hns : noLiveSub s = true := by
-        rw [noLiveSub_iff]
-        intro i hi
-        cases hl : (s.st (.sub i)).live with
-        | false => rfl
-        | true =>
-          rcases hB.orchStopSubs (by simp [hst]) i hi hl with hc | hs
-          · rcases hF.subSt i hi with h1 | h1 | h1
-            · rw [hS2 i hi h1] at hc; cases hc
-            · rw [hS1 i hi] at h1; cases h1
-            · rw [TS.ended_not_live h1] at hl; cases hl
-          · rw [hS1 i hi] at hs; cases hs
-      exact adv_rootEnd' .orchestrator (failTS f) (by cases f <;> simp [internal, failTS, hst])
-        (by simp [step, hne, failTS_ended, Root.kind, hst, hns]) (by simp [hst])
+      -- a live ensemble task that the orchestrator has stopped would be cancelled (then `hS2`) or stopping (then `hS1`)
+      have hdead : ∀ i, i < s.nSubs → (s.st (.sub i)).live = true →
+          (s.creq (.sub i) = true ∨ (s.st (.sub i)).isStopping = true) → False := by
+        intro i hi hl h
+        rcases h with hc | hs
+        · rcases hF.subSt i hi with h1 | h1 | h1
+          · rw [hS2 i hi h1] at hc; cases hc
+          · rw [hS1 i hi] at h1; cases h1
+          · rw [TS.ended_not_live h1] at hl; cases hl
+        · rw [hS1 i hi] at hs; cases hs
+      cases hop : s.orchPing with
+      | false =>
+        -- the first stop is over (no stream is alive): the second one begins
+        have hns : noLiveStream s = true := by
+          rw [noLiveStream_iff]
+          intro i hi hk
+          cases hl : (s.st (.sub i)).live with
+          | false => rfl
+          | true =>
+            rcases hB.orchStopSubs (by simp [hst]) i hi hl with hc | hs | ⟨hk', _⟩
+            · exact (hdead i hi hl (Or.inl hc)).elim
+            · exact (hdead i hi hl (Or.inr hs)).elim
+            · exact absurd hk' hk
+        exact adv_orchStopPingers hne f dl hst hop hns
+      | true =>
+        -- both stops are over: no ensemble task is alive
+        have hns : noLiveSub s = true := by
+          rw [noLiveSub_iff]
+          intro i hi
+          cases hl : (s.st (.sub i)).live with
+          | false => rfl
+          | true =>
+            rcases hB.orchStopSubs (by simp [hst]) i hi hl with hc | hs | ⟨_, hq⟩
+            · exact (hdead i hi hl (Or.inl hc)).elim
+            · exact (hdead i hi hl (Or.inr hs)).elim
+            · rw [hop] at hq; cases hq
+        exact adv_rootEnd' .orchestrator (failTS f) (by cases f <;> simp [internal, failTS, hst])
+          (by simp [step, hne, failTS_ended, Root.kind, hst, hns, hop]) (by simp [hst])
   | running =>
     have hc : s.creq (.root r) = true := by simpa [hst] using h
     cases hk : r.kind with
@@ -334,7 +357,8 @@ theorem advance_or_wait (hr : ReachC cfg s) (hne : s.rt ≠ .exited) :
       have e6 : (cfg.coreWatched && s.core == .failed && s.st (.root .coreWatcher) == .running) = false := by
         cases h1 : cfg.coreWatched <;> cases h2 : s.core <;> cases h3 : s.st (.root .coreWatcher) <;> simp
         exact hr4 ⟨h3, h1, h2⟩
-      have e7 : (match s.st (.root .orchestrator) with | .stopping _ _ => noLiveSub s | _ => false) = false := by
+      have e7 : (match s.st (.root .orchestrator) with
+          | .stopping _ _ => noLiveSub s || (!s.orchPing && noLiveStream s) | _ => false) = false := by
         have := (hR .orchestrator (by decide)).1
         cases h : s.st (.root .orchestrator) <;> simp_all
       simp only [hrtU, hscU, e1, e2, e3, e4, e5, e6, Bool.or_false, Bool.false_or]
